@@ -230,7 +230,11 @@ def predicates(ctx, cfg, env, td, B):
         if need("membership", "weights", "n_sets_to_choose"):
             m = td["membership"]
             p.check("members_valid", in_range(m, 0, cfg["items"]), "item index outside 0..num_items")
-            p.check("sets_nonempty", bool(((m > 0).sum(-1) >= 1).all()), "an empty set")
+            sz = (m > 0).sum(-1)
+            lo_, hi_ = int(cfg.get("min_size", 2)), int(cfg.get("max_size", 4))  # as configured (envzoo defaults 2..4); min_size=0 documents empty sets
+            p.check("sets_nonempty", bool((sz >= min(1, lo_)).all()), "an empty set although min_size >= 1")
+            # (repeated draws are removed from a set, so a set may end up smaller than min_size - only the upper end is a promise)
+            p.check("set_sizes_le_max", bool((sz <= hi_).all()), f"a set of {int(sz.max())} items although max_size = {hi_}")
             nodup = True
             for b in range(B):
                 for row in m[b].tolist():
